@@ -377,9 +377,13 @@ def library_state_diff(a, b):
     return "; ".join(out)[:500] or None
 
 
+LONG_SCALE = [1]     # run_shard sets 8 for the thorough tier (same number of long records as quick x 10, not x 100)
+
+
 def long_or(rng, i, n, longs=(32769, 50000, 70001, 131075), every=16, phase=7):
     """record-length helper: every `every`-th case of a workload replaces the drawn length by one beyond the usual internal
     block sizes (2**15, 2**16, 2**17; not multiples of them), so that chunked / narrow-index code paths are reached."""
+    every = every * LONG_SCALE[0]
     if i % every == phase:
         return int(longs[int(rng.integers(len(longs)))])
     return n
